@@ -321,24 +321,121 @@ End PROMRW.
 (* ---------------------------------------------------------------- Influx line protocol: influxUnmarshal.go *)
 Inductive fval := FNum (bits : N)      (* int64 or float64 field, as the bits of float64(v) *)
                 | FUint (bits : N)     (* unsigned field *)
-                | FStr (s : string) | FBool.
+                | FStr (s : string) | FBool
+                (* on "message" lines, where a field is rendered as text and not stored as a number: *)
+                | FIntT (z : Z) | FUintT (n : N) | FBoolT (b : bool).
 Record iline := IL { il_meas : string; il_tags : labels; il_fields : list (string * fval); il_ts : Z }.
 
 Definition is_message (f : string * fval) : bool := String.eqb (fst f) "message".
-(* lines the model covers: no "message" field, or "message" is a string and the only field
-   (otherwise the text is a logfmt rendering in Go map order) *)
+
+(* ---- getMessage: github.com/go-logfmt/logfmt EncodeKeyvals, as far as field values reach it
+   keyRuneFilter: runes <= ' ', '=', the quote and utf8.RuneError (a byte that is not UTF-8, or U+FFFD itself) are dropped *)
+Definition lf_special (b : N) : bool := (b <=? 32)%N || (b =? 61)%N || (b =? 34)%N.
+Definition is_fffd (b0 : N) (rest : string) : bool := (b0 =? 239)%N && (nth_byte rest 0 =? 191)%N && (nth_byte rest 1 =? 189)%N.
+(* skip > 0: continuation bytes of a rune already decided (kept or dropped) *)
+Fixpoint lf_key (skip : nat) (keep : bool) (s : string) : string :=
+  match s with
+  | EmptyString => EmptyString
+  | String a r =>
+    match skip with
+    | S k => if keep then String a (lf_key k keep r) else lf_key k keep r
+    | O =>
+      let b := byte a in
+      if (b <? 128)%N then (if lf_special b then lf_key 0 true r else String a (lf_key 0 true r))
+      else match rune_width b r with
+           | S (S k) => if is_fffd b r then lf_key (S k) false r else String a (lf_key (S k) true r)
+           | _ => lf_key 0 true r
+           end
+    end
+  end.
+(* strings.IndexFunc(value, needsQuotedValueRune) != -1 *)
+Fixpoint lf_needs_quote (skip : nat) (s : string) : bool :=
+  match s with
+  | EmptyString => false
+  | String a r =>
+    match skip with
+    | S k => lf_needs_quote k r
+    | O =>
+      let b := byte a in
+      if (b <? 128)%N then lf_special b || lf_needs_quote 0 r
+      else match rune_width b r with
+           | S (S k) => is_fffd b r || lf_needs_quote (S k) r
+           | _ => true
+           end
+    end
+  end.
+Definition lf_hex (d : N) : ascii := ascii_of_N (if (d <? 10)%N then 48 + d else 87 + d).
+(* writeQuotedString: JSON-like, without the HTML escapes *)
+Fixpoint lf_quoted_body (skip : nat) (keep : bool) (s : string) : string :=
+  match s with
+  | EmptyString => EmptyString
+  | String a r =>
+    match skip with
+    | S k => if keep then String a (lf_quoted_body k keep r) else lf_quoted_body k keep r
+    | O =>
+      let b := byte a in
+      let bs := ascii_of_N 92 in
+      if (b <? 128)%N then
+        if (32 <=? b)%N && negb (b =? 92)%N && negb (b =? 34)%N then String a (lf_quoted_body 0 true r)
+        else if (b =? 92)%N || (b =? 34)%N then String bs (String a (lf_quoted_body 0 true r))
+        else if (b =? 10)%N then String bs (String "n" (lf_quoted_body 0 true r))
+        else if (b =? 13)%N then String bs (String "r" (lf_quoted_body 0 true r))
+        else if (b =? 9)%N then String bs (String "t" (lf_quoted_body 0 true r))
+        else String bs (String "u" (String "0" (String "0" (String (lf_hex (b / 16)) (String (lf_hex (b mod 16)) (lf_quoted_body 0 true r))))))
+      else match rune_width b r with
+           | S (S k) => if is_fffd b r then String bs (String "u" (String "f" (String "f" (String "f" (String "d" (lf_quoted_body (S k) false r))))))
+                        else String a (lf_quoted_body (S k) true r)
+           | _ => String bs (String "u" (String "f" (String "f" (String "f" (String "d" (lf_quoted_body 0 true r))))))
+           end
+    end
+  end.
+Definition lf_string (v : string) : string :=
+  if String.eqb v "null" then String (ascii_of_N 34) ("null" ++ String (ascii_of_N 34) EmptyString)
+  else if lf_needs_quote 0 v then String (ascii_of_N 34) (lf_quoted_body 0 true v ++ String (ascii_of_N 34) EmptyString)
+  else v.
+(* writeValue: string as above; int64 / uint64 / bool through fmt.Sprint (never quoted); None: a float (fmt.Sprint of a
+   float64 is not modelled) *)
+Definition lf_value (v : fval) : option string :=
+  match v with
+  | FStr s => Some (lf_string s)
+  | FIntT z => Some (dec_Z z)
+  | FUintT n => Some (dec_N n)
+  | FBoolT true => Some "true"%string
+  | FBoolT false => Some "false"%string
+  | _ => None
+  end.
+Definition lf_pair (f : string * fval) : string := (lf_key 0 true (fst f) ++ String "=" (match lf_value (snd f) with Some t => t | None => EmptyString end))%string.
+(* "message" first, then the other fields in the order Go's map iteration visits them (here: the order of the list) *)
+Fixpoint lf_rest (fs : list (string * fval)) : string :=
+  match fs with
+  | [] => EmptyString
+  | f :: r => if is_message f then lf_rest r else (String " " (lf_pair f) ++ lf_rest r)%string
+  end.
+Definition get_message (fs : list (string * fval)) (m : fval) : string :=
+  match fs with
+  | [_] => match m with FStr s => s | _ => EmptyString end           (* fields["message"].(string) *)
+  | _ => (lf_pair ("message"%string, m) ++ lf_rest fs)%string
+  end.
+
+(* lines the model covers: no "message" field; or "message" is a string and the only field; or a "message" line all of whose
+   fields are strings / integers / booleans (carried with their text) with keys that keep at least one rune *)
+Definition lf_field_ok (f : string * fval) : bool :=
+  match lf_value (snd f) with Some _ => negb (String.eqb (lf_key 0 true (fst f)) EmptyString) | None => false end.
 Definition iline_modelled (l : iline) : bool :=
   match find is_message (il_fields l) with
-  | None => true
-  | Some (_, FStr _) => Nat.eqb (List.length (il_fields l)) 1
-  | Some _ => false
+  | None => forallb (fun f => match snd f with FIntT _ | FUintT _ | FBoolT _ => false | _ => true end) (il_fields l)
+  | Some (_, m) =>
+    match il_fields l with
+    | [_] => match m with FStr _ => true | _ => false end
+    | fs => forallb lf_field_ok fs && Nat.eqb (List.length (filter is_message fs)) 1
+    end
   end.
 
 Definition influx_line_calls (precision : Z) (l : iline) : list call :=
   let lbls := sanitize_labels (("measurement"%string, il_meas l) :: il_tags l) in
   let ts := wrap64 (il_ts l * precision) in
   match find is_message (il_fields l) with
-  | Some (_, v) => [K lbls [ts] [match v with FStr m => m | _ => EmptyString end] [0%N] [TYPE_LOG]]
+  | Some (_, v) => [K lbls [ts] [get_message (il_fields l) v] [0%N] [TYPE_LOG]]
   | None =>
     flat_map (fun f => match snd f with
                        | FNum b | FUint b => [K (lbls ++ [("__name__"%string, sanitize_name (fst f))]) [ts] [EmptyString] [b] [TYPE_METRIC]]
@@ -562,7 +659,7 @@ Definition influx_line_entries (precision : Z) (l : iline) : list entry :=
   let lbls := sanitize_labels (("measurement"%string, il_meas l) :: il_tags l) in
   let ts := wrap64 (il_ts l * precision) in
   match find is_message (il_fields l) with
-  | Some (_, v) => [E lbls ts (match v with FStr m => m | _ => EmptyString end) 0%N TYPE_LOG]
+  | Some (_, v) => [E lbls ts (get_message (il_fields l) v) 0%N TYPE_LOG]
   | None => flat_map (fun f => match snd f with
                                | FNum b | FUint b => [E (lbls ++ [("__name__"%string, sanitize_name (fst f))]) ts EmptyString b TYPE_METRIC]
                                | _ => []
@@ -661,6 +758,11 @@ Fixpoint sp (l : list int) : string :=
 (* samples / points of a series: [ts_hi; ts_lo; bits_hi; bits_lo; ...] *)
 Fixpoint smp (l : list int) : list (Z * N) :=
   match l with a :: b :: c :: d :: r => (z64 a b, n64 c d) :: smp r | _ => [] end.
+
+(* arithmetic progressions (bodies of tens of thousands of samples at a fixed scrape interval) *)
+Definition ap_z (start step : Z) (n : int) : list Z :=
+  snd (N.iter (Z.to_N (zi n)) (fun p => (fst p - step, fst p :: snd p)) (start + step * (zi n - 1), [])).
+Definition smp_ap (start step : Z) (v : N) (n : int) : list (Z * N) := map (fun t => (t, v)) (ap_z start step n).
 
 Inductive errkind := ENone | EPanic | EError.
 Record ftrow := FT { ft_labels : labels; ft_fp : N; ft_enclen : Z }.
